@@ -118,7 +118,16 @@ class Run:
         args += ["./" + pkg]
         p = subprocess.run(args, cwd=REPO, env=goenv(env), capture_output=True, text=True, timeout=timeout + 60)
         if p.returncode != 0:
-            raise Inconclusive("overlay test %s failed (tags=%s):\n%s" % (pkg, tags, (p.stdout + p.stderr)[-4000:]))
+            out = p.stdout + p.stderr
+            kind, detail = classify_go_failure(out)
+            if kind:
+                # the library itself panicked / did not return on the recorder's well-formed calls: behaviour of the code
+                self.violation("%s while the in-package recorder %s (%s, tags=%s) was running: %s"
+                               % ("the library panicked" if kind == "panic" else "a library call did not return (test timed out after %d s)" % timeout,
+                                  run, pkg, ",".join(tags) or "-", detail),
+                               event={"op": "lib" + kind, "pkg": pkg, "test": run, "tags": list(tags), "detail": detail[:1500]}, key=None)
+                return ""
+            raise Inconclusive("overlay test %s failed (tags=%s):\n%s" % (pkg, tags, out[-4000:]))
         return p.stdout
 
     def record(self, binary, prop=None, n=0, cfg="default", shards=None, env=None, extra="", outdir=None, seed=None):
@@ -325,6 +334,32 @@ def shrink(e):
 def tail(s, n=3000):
     s = "\n".join(l for l in s.splitlines() if not re.match(r"^(Semantic processing|Parsing file|Linting of)", l))
     return s[-n:]
+
+
+def classify_go_failure(out):
+    """Tell a library panic / hang from a harness failure in the output of a failed `go test`: the innermost frame
+    outside the Go runtime and the testing package decides. Frames in zz_verif* files are the recorder's own."""
+    m = re.search(r"^panic: (.*)$", out, re.M)
+    timed_out = "panic: test timed out" in out
+    if not m:
+        return None, ""
+    if timed_out:
+        # goroutine dump: look at the running goroutines
+        secs = re.split(r"\n(?=goroutine \d+ \[)", out)
+        secs = [x for x in secs if re.match(r"goroutine \d+ \[(running|runnable)", x)]
+    else:
+        i = out.find("goroutine ", m.end())
+        secs = [out[i:] if i >= 0 else ""]
+    for sec in secs:
+        for fm in re.finditer(r"^\s+(/\S+\.(?:go|s)):(\d+)", sec, re.M):
+            path = fm.group(1)
+            if "/go/src/" in path or "/libexec/" in path or "/usr/lib/go" in path or "/opt/veriftools/go" in path or "/src/runtime/" in path or "/src/testing/" in path:
+                continue
+            base = os.path.basename(path)
+            if base.startswith("zz_verif") or "/verif/overlay/" in path:
+                break   # the recorder's own frame comes first: not the library's doing
+            return ("hang" if timed_out else "panic"), "%s at %s:%s" % (m.group(1)[:300], path, fm.group(2))
+    return None, ""
 
 
 def parse_tlc(out):
